@@ -278,6 +278,7 @@ def check(case):
 
     try:
         op = R.build(r)
+        jrep = R.LAST_BUILD_JITTER
     except Exception as e:
         fail("build:" + X.describe(e), "constructor raised %r" % (e,))
     state.settings.debug._state = bool(case["debug"])
@@ -320,6 +321,17 @@ def check(case):
             if mul:
                 # psd_safe_cholesky jitter is absolute, not relative to the operand's magnitude
                 bound = bound + 16.0 * tol.JITTER_MAX[dtname] * (1.0 + float(mag.max()))
+                if jrep > 0.0:
+                    # REPORTED jitter e on a factor: (A + e I) o (B + e I) = A o B + e (diag A + diag B) + e^2 - scaled by the
+                    # magnitudes of the other (leaf) factors of the nested product, which |A| o |B| (zero for a zero factor) hides
+                    prod_f = 1.0
+                    for nd in R.walk(r):
+                        if nd["op"] == "Mul":
+                            for c in nd["args"]:
+                                if c["op"] != "Mul":
+                                    mc = refmodel.dense_abs(c)
+                                    prod_f *= 1.0 + (float(mc.max()) if mc.numel() else 0.0)
+                    bound = bound + 16.0 * jrep * prod_f
             ratio, i = tol.worst_excess(res, expect, bound)
             if ratio > 1.0:
                 fail("value", "max |lib-ref|/bound = %.3g (lib=%r ref=%r flat %s)" % (ratio, res.reshape(-1)[i].item(), expect.reshape(-1)[i].item(), i))
